@@ -1,49 +1,55 @@
 ----------------------------- MODULE JudgeQuote -----------------------------
-(* V for C03: one TLC state per recorded case.  A case is what the REAL quoting function produced
-   for a string and what the REAL parser / Evaler made of that text:
-     api, pref   parse.Quote | QuoteAs(pref) | QuoteCommandName | QuoteVariableName
-     ctx         where the text was used: "arg" `put <q>`, "key" `keys [&<q>=v]`, "cmd" `<q>`,
-                 "var" `put $<q>`
+(* V for C03: one TLC state per recorded case.  A case is a string s, a text q that REAL quoting
+   functions produced for it, and what the REAL parser / Evaler made of q in every context those
+   functions are meant for:
      s, q        the string and the quoted text (bytes)
-     kind        the PrimaryType QuoteAs reported ("" for the other functions)
+     by          the functions that returned q for s: [api, pref, kind] with api one of parse.Quote,
+                 QuoteAs (pref = the preferred PrimaryType), QuoteCommandName, QuoteVariableName;
+                 kind = the PrimaryType QuoteAs reported ("" for the other functions)
      pr          the non-ASCII code points of s and q that unicode.IsPrint accepts (trusted data)
-     perr        the real parser reported an error for the program
-     single      the slot holds exactly one word, consisting of one string-literal Primary (for
+     special     s is the name of a special command (eval.IsBuiltinSpecial; trusted data)
+     obs         per context ("arg" `put <q>`, "key" `keys [&<q>=v]` for Quote/QuoteAs, "cmd" `<q>` for
+                 QuoteCommandName, "var" `put $<q>` for QuoteVariableName):
+        perr     the real parser reported an error for the program
+        single   the slot holds exactly one word, consisting of one string-literal Primary (for
                  "var": one Variable Primary), spanning exactly the text, nothing else in the program
-     val         Primary.Value of that word
-     evc, ev     class of the evaluation error ("" none) and the strings the evaluation yielded:
+        val      Primary.Value of that word
+        evc, ev  class of the evaluation error ("" none) and the strings the evaluation yielded:
                  arg: the values put; key: the keys of the map; cmd: the name under which the
                  called function had been registered (functions registered: s and decoys);
                  var: the name under which the variable read had been registered
-     special     s is the name of a special command (eval.IsBuiltinSpecial; trusted data)
-   Accepted iff
+   Accepted iff, for every context,
      spec   Denote(ctx, q) = s          -- by the reference's lexical rules, not by the parser
      parse  ~perr /\ single /\ val = s
      eval   evc = "" /\ ev = <<s>>      -- unless EvalUnspecified
-     kind   the reported kind is the kind of the text
+   and
+     kind   every reported kind is the kind of the text.
    EvalUnspecified: how a command head / variable name is *resolved* is not the subject of the
    property: names containing `:` (namespace-qualified), starting with `@` (explode sigil) or, in
-   command position, naming a special command or being empty are judged at spec and parse level only. *)
+   command position, naming a special command are judged at spec and parse level only. *)
 EXTENDS StringLit, TLC, Json
 Cases == ndJsonDeserialize("cases.ndjson")
 VARIABLE k
 Init == k = 0
 Next == k < Len(Cases) /\ k' = k + 1
 
-Has(t, b) == \E i \in 1..Len(t) : t[i] = b
-EvalUnspecified(c) ==
-  /\ c.ctx \in {"cmd", "var"}
-  /\ \/ Has(c.s, 58)
-     \/ (IF c.s = <<>> THEN FALSE ELSE c.s[1] = 64)
-     \/ (c.ctx = "cmd" /\ (c.special \/ c.s = <<>>))
+EvalUnspecified(s, ctx, special) == ResolutionUnspecified(s, ctx, special)
+
+WhyObs(c, o, P, dq) ==
+  \* the denotation of a quoted text does not depend on the context: computed once (dq)
+  LET d == IF Kind(c.q) = "bare" THEN Denote(o.ctx, c.q, P) ELSE dq
+  IN IF ~(d.ok /\ d.v = c.s) THEN "spec"
+     ELSE IF o.perr \/ ~o.single \/ o.val # c.s THEN "parse"
+     ELSE IF ~EvalUnspecified(c.s, o.ctx, c.special) /\ ~(o.evc = "" /\ o.ev = <<c.s>>) THEN "eval"
+     ELSE "ok"
 
 Why(c) ==
-  LET P == {c.pr[i] : i \in 1..Len(c.pr)}
-      d == Denote(c.ctx, c.q, P)
-  IN IF ~(d.ok /\ d.v = c.s) THEN "spec"
-     ELSE IF c.perr \/ ~c.single \/ c.val # c.s THEN "parse"
-     ELSE IF ~EvalUnspecified(c) /\ ~(c.evc = "" /\ c.ev = <<c.s>>) THEN "eval"
-     ELSE IF c.kind # "" /\ c.kind # Kind(c.q) THEN "kind"
-     ELSE "ok"
-Inv == k = 0 \/ Why(Cases[k]) = "ok" \/ PrintT(<<"BAD", k, Why(Cases[k])>>)
+  LET P  == {c.pr[i] : i \in 1..Len(c.pr)}
+      dq == IF Kind(c.q) = "bare" THEN Invalid ELSE Denote("arg", c.q, P)
+      bad == {i \in 1..Len(c.obs) : WhyObs(c, c.obs[i], P, dq) # "ok"}
+  IN IF bad # {} THEN LET i == CHOOSE i \in bad : \A j \in bad : i <= j
+                      IN <<WhyObs(c, c.obs[i], P, dq), c.obs[i].ctx>>
+     ELSE IF \E i \in 1..Len(c.by) : c.by[i].kind # "" /\ c.by[i].kind # Kind(c.q) THEN <<"kind", "">>
+     ELSE <<"ok", "">>
+Inv == k = 0 \/ Why(Cases[k])[1] = "ok" \/ PrintT(<<"BAD", k, Why(Cases[k])[1], Why(Cases[k])[2]>>)
 =============================================================================
